@@ -1,7 +1,9 @@
 package rules
 
 import (
+	"fmt"
 	"go/token"
+	"go/types"
 	"strings"
 
 	"golang.org/x/tools/go/ssa"
@@ -15,7 +17,7 @@ func init() {
 		Explanation: `R09.1 in safeKeeperReader.Read the inner reader is read only after validateBlock was called on every path and only on the nil outcome of its result; ` +
 			`R09.2 raw readers of the inner pool never escape: they flow only into the rs field of a safeKeeperReader, the pool methods return only *safeKeeperReader, and methods of the rs field are called only from the wrapper's own methods; ` +
 			`R09.3 validateBlock restores the reader position (Seek to the offset saved before the first move) on every path after it moved the reader; ` +
-			`R09.4 safeKeeperReader.offset mirrors the wrapped reader's position: Seek stores the result of the inner Seek, Read adds the inner Read's count, and every construction site initialises offset from a Seek on the same reader. ` +
+			`R09.4 safeKeeperReader.offset mirrors the wrapped reader's position: Seek stores the result of the inner Seek, Read adds the inner Read's count, and every construction site initialises offset from a Seek on the same reader; R09.6 the chunk size of the bsdiff read cache (lrufile.New) is a constant that divides pwr.BlockSize, so that a chunk-aligned chunk read never covers a block the safekeeper's per-offset validation did not check. ` +
 			`NOT decided: that every damage is noticed (depends on which blocks a patch reads), the verdict cache, reads at EOF of a file whose size is a multiple of 64KiB (defect F13, arithmetic).`,
 		Assumptions: []string{"the wrapped reader is the field rs of safeKeeperReader; the inner pool is the field inner of safeKeeper"},
 		Run:         runC09,
@@ -27,6 +29,7 @@ func runC09(c *core.Ctx) {
 	c.Rule("R09.2", "raw readers do not escape the wrapper")
 	c.Rule("R09.3", "position restored after validation")
 	c.Rule("R09.4", "offset mirrors the wrapped reader's position")
+	c.Rule("R09.6", "cache chunks never straddle validated blocks")
 	read := c.P.Fn("pwr", "safeKeeperReader.Read")
 	seek := c.P.Fn("pwr", "safeKeeperReader.Seek")
 	vb := c.P.Fn("pwr", "safeKeeper.validateBlock")
@@ -306,4 +309,27 @@ func runC09(c *core.Ctx) {
 		})
 	}
 	c.Floor("R09.4", "construction sites of safeKeeperReader", nc, 1)
+
+	// ---- R09.6: the safekeeper's Read checks the one block that holds the current offset and then forwards the
+	// caller's whole buffer. Its large reads come from the bsdiff cache in front of the old file, in chunks at
+	// chunk-aligned offsets; a chunk must therefore never straddle two signed blocks.
+	blockSize := int64(-1)
+	if k, ok := c.P.LookupObj("pwr", "BlockSize").(*types.Const); ok {
+		blockSize, _ = constInt64(k)
+	}
+	nChunk := 0
+	for _, fn := range c.P.SrcFuncs() {
+		core.Instrs(fn, func(in ssa.Instruction) {
+			cl, ok := in.(*ssa.Call)
+			if !ok || core.CalleeName(cl) != "bsdiff/lrufile.New" || len(cl.Call.Args) < 1 {
+				return
+			}
+			nChunk++
+			k, isC := core.ConstInt(cl.Call.Args[0])
+			c.Check(isC && k > 0 && blockSize > 0 && blockSize%k == 0, "R09.6", core.FnName(fn), "cache chunk size divides the signed block size", core.InstrPos(in),
+				fmt.Sprintf("chunk size %d divides BlockSize %d: a chunk-aligned chunk read lies within one validated block", k, blockSize),
+				fmt.Sprintf("the cache in front of the old file reads chunks of %d bytes (constant: %v) while blocks are validated %d bytes at a time: a chunk read covers blocks the safekeeper did not check, and damage in them flows into the output", k, isC, blockSize))
+		})
+	}
+	c.Floor("R09.6", "constructions of the old-file cache", nChunk, 1)
 }
